@@ -171,6 +171,38 @@ def random_stmt(rr, fam, r, c):
     return f"{t} {op} {rr.choice(vec_objects(fam, r, c, False) + [f'U{rr.below(2 * k + 3 - c)}'])}"
 
 
+def systematic_batches(rng, thorough):
+    """all pairs over a small domain for the observers that were only run on random operands"""
+    r = rng.fork("systematic")
+    ops = []
+    for n in (1, 2, 3, 4):
+        for kind, modes in (("v", ["ss", "rr", "bb"] + (["sr", "rb", "bs"] if n in (2, 3) else [])), ("d", ["ss", "bb"] + (["sb"] if n in (2, 3) else []))):
+            for lr in modes:
+                ias = range(4 ** n) if (thorough or n < 4) else sorted({r.below(256) for _ in range(32)} | {0, 85, 255})
+                ops += [f"vecs {kind} {lr} {n} {ia}" for ia in ias]
+    yield Batch("vec-all-pairs", ops, exhaustive=True,
+                note="every operator / comparison / cast of the vec line on ALL pairs of vectors and dims over {-1,0,1,2}, dimension 1-3 "
+                     "(dimension 4: all 65536 pairs thorough, 35 x 256 quick), every storage combination")
+    ops = [f"crs {lr} {ia}" for lr in ("ss", "rr", "bb", "sr", "rb", "bs") for ia in range(64)]
+    yield Batch("cross-all-pairs", ops, exhaustive=True, note="cross, dot, Lagrange identity on all 4096 pairs of 3-vectors over {-1,0,1,2}, six storage combinations")
+    ops = [f"sqs s {a}" for a in range(81)] + [f"sqs b {a}" for a in (range(81) if thorough else sorted({r.below(81) for _ in range(20)}))]
+    yield Batch("3x3-all-trits", ops, exhaustive=True, note="determinant, adjugate, A adj A, adj A A, inverse of ALL 19683 3x3 matrices over {-1,0,1} (static; buffer view: all thorough, sample quick)")
+    ops = [f"mvs s s {a}" for a in range(4096)]
+    for mm, vm in (("s", "b"), ("s", "r"), ("b", "s"), ("b", "b"), ("b", "r")):
+        ops += [f"mvs {mm} {vm} {a}" for a in (range(4096) if thorough else sorted({r.below(4096) for _ in range(200)}))]
+    yield Batch("mv-2x3-all", ops, exhaustive=True, note="matrix * vector for ALL 2x3 matrices and 3-vectors over {-1,0,1,2} (static; other storage combinations: all thorough, sample quick)")
+    # == / != of matrices that differ in exactly one entry, every position, every shape
+    ops = []
+    for (rr, cc) in MAT_SHAPES:
+        a = [r.range(-9, 9) for _ in range(rr * cc)]
+        for pos in range(rr * cc):
+            b = list(a)
+            b[pos] += r.choice([-1, 1])
+            for lr in (["ss", "bb", "sb"] if (rr, cc) in MAT_VIEWS else ["ss"]):
+                ops.append(f"mat {lr} {rr} {cc} {vs(a)} {vs(b)} {r.range(-9, 9)} {pos // cc} {pos % cc}")
+    yield Batch("mat-one-entry-differs", ops, note="matrix == != + - on operands that differ in exactly one entry, every position of every shape")
+
+
 def member_batches(rng, thorough):
     # ---- exhaustive over small vectors: every single statement (target x operand x operator, every aliasing pattern)
     ops = []
@@ -205,7 +237,7 @@ def member_batches(rng, thorough):
 
 def nontrivial(op, result):
     t = op.split()
-    if t[0] in ("bits", "det0", "builders", "mem", "mems"):
+    if t[0] in ("bits", "det0", "builders", "mem", "mems", "vecs", "crs", "sqs", "mvs"):
         return True
     if t[0] in ("pairs", "trios"):
         return any(int(x) != 0x55 for x in t[2:])      # 0x55 is the zero matrix
@@ -216,11 +248,30 @@ def weight(op):
     t = op.split()
     if t[0] == "mems":
         return mems_count(int(t[3]), t[4])
+    if t[0] == "vecs":
+        return 4 ** int(t[3])
+    if t[0] in ("crs", "mvs"):
+        return 64
+    if t[0] == "sqs":
+        return 243
     return 256 if t[0] in ("pairs", "trios") else 1
+
+
+def enum_trits(n, idx):
+    return [(idx // 3 ** j) % 3 - 1 for j in range(n)]
 
 
 def refine(op):
     t = op.split()
+    if t[0] == "vecs":
+        n, ia = int(t[3]), int(t[4])
+        return [f"vec {t[1]} {t[2]} {n} {vs(enum_a(n, ia))} {vs(enum_a(n, ib))} {(ia + ib) % 7 - 3} {(ia + 2 * ib) % (n + 2)}" for ib in range(4 ** n)]
+    if t[0] == "crs":
+        return [f"cross {t[1]} {vs(enum_a(3, int(t[2])))} {vs(enum_a(3, ib))}" for ib in range(64)]
+    if t[0] == "sqs":
+        return [f"sq {t[1]} 3 {vs(enum_trits(5, lo) + enum_trits(4, int(t[2])))}" for lo in range(243)]
+    if t[0] == "mvs":
+        return [f"mv {t[1]} {t[2]} 2 3 {vs(enum_a(6, int(t[3])))} {vs(enum_a(3, iv))}" for iv in range(64)]
     if t[0] == "trios":
         a, b = vs(decode2(int(t[2]))), vs(decode2(int(t[3])))
         return [f"trio {t[1]} 2 {a} {b} {vs(decode2(c))}" for c in range(256)]
@@ -341,6 +392,7 @@ def batches(rng, tier):
     for _ in range(100 * scale):
         ops.append("builders " + " ".join(str(r.range(-9, 9)) for _ in range(6)))
     yield Batch("vec-dim-random", ops, note="vectors and dims of dimension 1-4 in [-9,9], static / row-view / buffer-view operands; cross; builders")
+    yield from systematic_batches(rng, thorough)
     yield from member_batches(rng, thorough)
 
 
